@@ -376,7 +376,114 @@ def c20_runtime(tier):
     if "can't find field" in out or "unknown command" in out or "accepts" in out:
         fails.append(dict(cmd="fundraisingd query fundraising get-bid 1 2", rc=rc, output=out[-600:]))
     shutil.rmtree(home, ignore_errors=True)
+    ran += c20_live(B, fails, samples)
     return fails, ran, samples
+
+def c20_live(B, fails, samples):
+    """a single-node chain started from the binary: transactions sent with the CLI, every query command run against it
+    and its answer displayed.  The chain starts from a genesis that already contains auctions, an allow-list entry,
+    bids and vesting instalments (harness/cmd/genfixture), because an allow-list entry cannot be created on a default
+    build in any other way."""
+    import socket, signal
+    ran = 0
+    home = os.path.join(BUILD, "fdlive")
+    shutil.rmtree(home, ignore_errors=True)
+    def free_port():
+        s = socket.socket(); s.bind(("127.0.0.1", 0)); p = s.getsockname()[1]; s.close(); return p
+    rpc, grpc, p2p, pprof = free_port(), free_port(), free_port(), free_port()
+    node = "--node tcp://127.0.0.1:%d" % rpc
+    def cli(args, what=None, must=(), expect_fail=False):
+        nonlocal ran
+        ran += 1
+        rc, out = sh("timeout 60 %s %s --home %s" % (B, args, home))
+        bad = (rc != 0) != expect_fail or any(m not in out for m in must)
+        if bad:
+            fails.append(dict(cmd="fundraisingd " + args, rc=rc, output=out[-900:], expected_to_contain=list(must)))
+        elif what:
+            samples.append(dict(cmd=args.replace(node, "").strip(), shows=what))
+        return rc, out
+    cli("init verif --chain-id verif-live")
+    cli("keys add alice --keyring-backend test")
+    rc, out = cli("keys show alice -a --keyring-backend test")
+    alice = (ADDR_RE.findall(out) or ["?"])[-1]
+    # the fixture genesis of the module
+    hdir = os.path.join(VERIF, "harness")
+    fx = os.path.join(BUILD, "fixture.json")
+    rcf, outf = sh("timeout 900 go build -o %s ./cmd/genfixture && %s %s %s %s" % (os.path.join(BUILD, "genfixture"), os.path.join(BUILD, "genfixture"), REPO, fx, alice), cwd=hdir, env=GOENV)
+    if rcf != 0:
+        fails.append(dict(cmd="harness/cmd/genfixture", rc=rcf, output=outf[-900:])); return ran
+    cli("genesis add-genesis-account %s 1000000000000stake,1000000000denoma,1000000000denomb" % alice)
+    for l in outf.strip().splitlines():
+        a, c = l.split()
+        cli("genesis add-genesis-account %s %s" % (a, c))
+    gp = os.path.join(home, "config", "genesis.json")
+    g = json.load(open(gp)); g["app_state"]["fundraising"] = json.load(open(fx)); json.dump(g, open(gp, "w"))
+    cli("genesis gentx alice 1000000stake --chain-id verif-live --keyring-backend test")
+    cli("genesis collect-gentxs")
+    cli("genesis validate")
+    cfg = os.path.join(home, "config", "config.toml")
+    t = open(cfg).read().replace('timeout_commit = "5s"', 'timeout_commit = "300ms"').replace('pprof_laddr = "localhost:6060"', 'pprof_laddr = "localhost:%d"' % pprof)
+    open(cfg, "w").write(t)
+    logf = open(os.path.join(BUILD, "fdlive.log"), "w")
+    import subprocess as sp
+    proc = sp.Popen([B, "start", "--home", home, "--rpc.laddr", "tcp://127.0.0.1:%d" % rpc, "--grpc.address", "127.0.0.1:%d" % grpc,
+                     "--p2p.laddr", "tcp://127.0.0.1:%d" % p2p, "--api.enable=false", "--grpc-web.enable=false", "--minimum-gas-prices", "0stake"], stdout=logf, stderr=sp.STDOUT)
+    def height():
+        rc, out = sh("timeout 10 %s status %s" % (B, node))
+        m = re.search(r'"latest_block_height":"(\d+)"', out)
+        return int(m.group(1)) if m else 0
+    def wait_blocks(n, limit=40):
+        h0 = height(); t1 = time.time()
+        while time.time() - t1 < limit:
+            if proc.poll() is not None: return False
+            if height() >= h0 + n and h0 + n > n - 1: return True
+            time.sleep(0.3)
+        return False
+    try:
+        t1 = time.time()
+        while height() < 2 and time.time() - t1 < 60 and proc.poll() is None:
+            time.sleep(0.5)
+        if height() < 2:
+            fails.append(dict(cmd="fundraisingd start (single node from the fixture genesis)", rc=proc.poll(), output=open(os.path.join(BUILD, "fdlive.log")).read()[-1500:]))
+            return ran
+        samples.append(dict(cmd="start", shows="single-node chain produces blocks from a genesis with 3 auctions, 3 allow-list entries, 2 bids, 2 instalments"))
+        TX = "--from alice --keyring-backend test --chain-id verif-live --gas 600000 -y %s" % node
+        # what the node answers can be displayed: every query command
+        cli("query fundraising params " + node, "module parameters", must=["auction_creation_fee", "extended_period"])
+        cli("query fundraising get-auction 0 " + node, "an open fixed price auction", must=["FixedPriceAuction", "selling_coin", 'amount: "1000"', "AUCTION_STATUS_STARTED", "remaining_selling_coin"])
+        cli("query fundraising get-auction 1 " + node, "an open batch auction", must=["BatchAuction", "min_bid_price", "AUCTION_STATUS_STARTED"])
+        cli("query fundraising get-auction 2 " + node, "an auction in its vesting period", must=["AUCTION_STATUS_VESTING", "vesting_schedules"])
+        cli("query fundraising list-auction " + node, "all auctions", must=["FixedPriceAuction", "BatchAuction"])
+        cli("query fundraising get-bid 2 1 " + node, "a matched bid", must=["is_matched: true", 'amount: "80"', "denomb", alice])
+        cli("query fundraising list-bid --auction-id 1 " + node, "the bids of one auction", must=['amount: "40"', "BID_TYPE_BATCH_WORTH"])
+        cli("query fundraising get-allowed-bidder 0 %s %s" % (alice, node), "an allow-list entry", must=['max_bid_amount: "500"', alice])
+        cli("query fundraising list-allowed-bidder " + node, "allow-list entries", must=["max_bid_amount"])
+        cli("query fundraising list-vesting-queue " + node, "vesting instalments", must=['amount: "60"', "released: true", "paying_coin"])
+        cli("query fundraising get-auction 9 " + node, expect_fail=True)
+        # what the user types is what is sent, and it takes effect: transactions through the CLI
+        cli("tx fundraising place-bid 0 fixed-price 500000000000000000 10denomb " + TX, must=["txhash"])
+        wait_blocks(2)
+        cli("query fundraising get-bid 0 1 " + node, "the bid just placed through the CLI", must=['amount: "10"', "BID_TYPE_FIXED_PRICE", 'price: "500000000000000000"'])
+        cli("query fundraising get-auction 0 " + node, "the remainder after that bid", must=['amount: "980"'])
+        cli("tx fundraising modify-bid 1 1 900000000000000000 50denomb " + TX, must=["txhash"])
+        wait_blocks(2)
+        cli("query fundraising get-bid 1 1 " + node, "the bid just modified through the CLI", must=['amount: "50"', 'price: "900000000000000000"'])
+        cli("tx fundraising create-batch-auction 2000000000000000000 100000000000000000 5000denoma denomb '{\"release_time\":\"2032-01-01T00:00:00Z\",\"weight\":\"1000000000000000000\"}' 3 50000000000000000 2030-01-01T00:00:00Z 2030-06-01T00:00:00Z " + TX, must=["txhash"])
+        wait_blocks(2)
+        cli("query fundraising get-auction 3 " + node, "the auction just created through the CLI", must=["AUCTION_STATUS_STANDBY", 'amount: "5000"', "max_extended_round: 3"])
+        cli("tx fundraising cancel-auction 3 " + TX, must=["txhash"])
+        wait_blocks(2)
+        cli("query fundraising get-auction 3 " + node, "the auction just cancelled through the CLI", must=["AUCTION_STATUS_CANCELLED"])
+        if proc.poll() is not None:
+            fails.append(dict(cmd="fundraisingd start", rc=proc.poll(), output="the node stopped: " + open(os.path.join(BUILD, "fdlive.log")).read()[-1200:]))
+    finally:
+        if proc.poll() is None:
+            proc.send_signal(signal.SIGTERM)
+            try: proc.wait(15)
+            except Exception: proc.kill()
+        logf.close()
+        shutil.rmtree(home, ignore_errors=True)
+    return ran
 
 def special_c20(prop, tier, seed, t0, chk):
     C = chk.coq_status()
@@ -391,8 +498,8 @@ def special_c20(prop, tier, seed, t0, chk):
                                           "coq/Cli.v: hand transcription of client/v2 autocli's binding rules (flag/builder.go addMessageFlags)",
                                           "the runtime part runs the binary built from /repo; the rest of the application's start-up (other modules, config, ports) is exercised, not proved"],
                             exhaustive=True, evaluations=ran, distinct_nontrivial=len(samples), commands_run=ran, runtime_failures=len(fails),
-                            rule="every command the module registers: --help of root, of `query|tx fundraising` and of each sub-command must exit 0 and be listed; each transaction command is run with --generate-only --offline and the generated message compared field by field with the typed arguments",
-                            samples=samples[:6]),
+                            rule="every command the module registers: --help of root, of `query|tx fundraising` and of each sub-command must exit 0 and be listed; each transaction command is run with --generate-only --offline and the generated message compared field by field with the typed arguments; then a single-node chain is started from the binary (genesis fixture with auctions, allow-list, bids, instalments), every query command is run against it and must display the stored objects, and place-bid / modify-bid / create-batch-auction / cancel-auction are sent through the CLI and their effect read back",
+                            samples=samples[:40]),
               assumptions=["see trusted_base"], wall_s=round(time.time() - t0, 1), violations=len(fails))
     json.dump(ev, open(os.path.join(VERIF, "evidence", "C20.json"), "w"), indent=1)
     if fails:
